@@ -24,7 +24,7 @@
    (c) PARTIAL: that the float64 keys computed with math.Log from math/rand draws behave
        like the ideal ones is NOT proved (no probability theory over IEEE floats); it is
        a fixed-seed frequency TEST in vlib/c20.py (stream "frequency-test-k1"). *)
-From Got Require Import Base Heap HeapProofs Sample SampleProofs.
+From Got Require Import Base Heap HeapProofs Sample SampleProofs SampleSeq SampleSeqProofs.
 Require Import Permutation.
 Local Open Scope Z_scope.
 
@@ -179,6 +179,74 @@ Theorem c20_heap_fix :
                Permutation (hp_set l i x) l' /\ length l' = length l.
 Proof. exact @hp_fix_spec. Qed.
 Print Assumptions c20_heap_fix.
+
+(* ---------- panicking getWeight callback, and call SEQUENCES (models/SampleSeq.v) ----------
+   "State left behind by an earlier call (including one that panicked) must not influence a
+   later call."  smp_sample_cb is smp_sample with a callback that panics when asked for index
+   pj; it also returns the number of callback invocations made.  smp_run_calls runs a list of
+   calls; the Go function has no state outliving a call (fresh make() per call), so no store
+   is threaded from call to call -- the sequence streams of vlib/c20.py (c20Q) check the real
+   code against exactly this. *)
+
+(* a callback that never panics (or would only panic at an index >= totalNum that is never
+   asked for): the call is the call of the first part *)
+Theorem c20_sample_cb_conservative :
+  forall init k n key,
+    fst (smp_sample_cb init k n key None) = smp_sample init k n key /\
+    forall j, (Z.to_nat n <= j)%nat ->
+      fst (smp_sample_cb init k n key (Some j)) = smp_sample init k n key.
+Proof. exact (fun init k n key => conj (smp_sample_cb_none init k n key) (smp_sample_cb_late init k n key)). Qed.
+Print Assumptions c20_sample_cb_conservative.
+
+(* valid arguments and getWeight panics at index j < totalNum: the call panics, after
+   exactly j+1 callback invocations *)
+Theorem c20_sample_cb_panics :
+  forall k n key j, 1 <= k <= n -> (j < Z.to_nat n)%nat ->
+    smp_sample_cb SmpEmpty k n key (Some j) = (HpPanic, S j).
+Proof. exact smp_sample_cb_panics. Qed.
+Print Assumptions c20_sample_cb_panics.
+
+(* invalid arguments: panic, with at most one callback invocation, whatever the callback does *)
+Theorem c20_sample_cb_invalid_args :
+  forall k n key pj, (n < k \/ n <= 0 \/ k <= 0) ->
+    fst (smp_sample_cb SmpEmpty k n key pj) = HpPanic /\
+    (snd (smp_sample_cb SmpEmpty k n key pj) <= 1)%nat.
+Proof. exact smp_sample_cb_invalid_args. Qed.
+Print Assumptions c20_sample_cb_invalid_args.
+
+(* the outcome of a call of a sequence is that call's own outcome, whatever calls were made
+   before it and after it *)
+Theorem c20_calls_history_independent :
+  forall (pre post : list smp_call) (c : smp_call),
+    nth_error (smp_run_calls (pre ++ c :: post)) (length pre) = Some (smp_call_result c).
+Proof. exact smp_run_calls_history_independent. Qed.
+Print Assumptions c20_calls_history_independent.
+
+(* FULL STATEMENT for sequences: in every sequence of calls, every call with
+   1 <= sampleNum <= totalNum whose callback does not panic returns normally, asks for each
+   weight exactly once, and its result has the full specification of the property (exactly
+   sampleNum pairwise distinct indices in range, a permutation when sampleNum = totalNum, a
+   top-k set of the keys) -- no matter which earlier calls panicked and where *)
+Theorem c20_calls_valid_meet_spec :
+  forall (cs : list smp_call) (i : nat) (c : smp_call),
+    nth_error cs i = Some c -> smp_call_valid c ->
+    exists r, nth_error (smp_run_calls cs) i = Some (HpOk r, Z.to_nat (smc_n c)) /\
+      Z.of_nat (length r) = smc_k c /\
+      Forall (fun x => 0 <= x < smc_n c) r /\
+      NoDup r /\
+      (smc_k c = smc_n c -> Permutation r (map Z.of_nat (seq 0 (Z.to_nat (smc_n c))))) /\
+      (forall a b, In a r -> 0 <= b < smc_n c -> ~ In b r ->
+         smp_key_of_list (smc_keys c) (Z.to_nat b) <= smp_key_of_list (smc_keys c) (Z.to_nat a)).
+Proof. exact smp_run_calls_valid_spec. Qed.
+Print Assumptions c20_calls_valid_meet_spec.
+
+(* non-vacuity: a valid call after a call whose callback panicked at index 2 and after a call
+   with invalid arguments *)
+Example c20_calls_nonvacuous :
+  smp_run_calls [SmcCall 3 7 [5; 1; 5; 9; 0; 5; 2] (Some 2%nat); SmcCall 5 3 [1; 2; 3] None;
+                 SmcCall 3 7 [5; 1; 5; 9; 0; 5; 2] None] =
+  [(HpPanic, 3%nat); (HpPanic, 0%nat); (HpOk [0; 3; 2], 7%nat)].
+Proof. reflexivity. Qed.
 
 (* non-vacuity: concrete instance with ties; and the distinct-key witness of the defect *)
 Example c20_nonvacuous :
